@@ -318,9 +318,42 @@ def FieldTok.parse (w : String) : Option FieldTok :=
       | _, _ => none
     | _ => none
 
+/-- exact determinant of a small integer matrix (row-major, n ≤ 3); 0 for anything else -/
+def ckDet (n : Nat) (a : List Int) : Int :=
+  match n, a with
+  | 1, [a0] => a0
+  | 2, [a0, a1, a2, a3] => a0 * a3 - a1 * a2
+  | 3, [a0, a1, a2, a3, a4, a5, a6, a7, a8] =>
+    a0 * (a4 * a8 - a5 * a7) - a1 * (a3 * a8 - a5 * a6) + a2 * (a3 * a7 - a4 * a6)
+  | _, _ => 0
+
+/-- round five: `ck <solve|invert> <fm|dm> <n ≤ 3> <k> <A> [<b>]` = the closed forms in the build with
+`DUNE_FMatrix_WITH_CHECKING` on the operand `A·2^k` (small integer entries, exact determinant ≠ 0, `-180 ≤ k·n ≤ 600`,
+i.e. the determinant is far above `FMatrixPrecision<>::absolute_limit()`).  By design that build throws FMatrixError only
+below the limit (`tie_checked_quantity`: the tested quantity is the determinant), so the model's answer is "returns";
+the harness checks the returned numbers by residual. -/
+def handleCk (op rep ns ks as : String) (rest : List String) : String :=
+  match smallInt? ns, smallInt? ks, parseIntList? as with
+  | some n, some k, some al =>
+    if (op != "solve" ∧ op != "invert") ∨ (rep != "fm" ∧ rep != "dm") then "bad-op" else
+    if n < 1 ∨ n > 3 ∨ k < -600 ∨ k > 600 then "bad-op" else
+    let bl : Option (List Int) := match rest with
+      | [] => some []
+      | [bs] => parseIntList? bs
+      | _ => none
+    match bl with
+    | none => "bad-op"
+    | some bl =>
+      if (op == "solve") != (rest.length == 1) then "bad-op" else
+      if al.length != (n * n).toNat ∨ (op == "solve" ∧ bl.length != n.toNat) then "bad-op" else
+      if al.any (fun x => x < -9 ∨ x > 9) ∨ bl.any (fun x => x < -9 ∨ x > 9) then "bad-op" else
+      if ckDet n.toNat al == 0 ∨ k * n < -180 ∨ k * n > 600 then "bad-op" else "ck-returns"
+  | _, _, _ => "bad-op"
+
 def handle (line : String) : String :=
   match tokens line with
   | ftok :: op :: rep0 :: ns :: ps :: as :: rest =>
+    if ftok == "ck" then handleCk op rep0 ns ps as rest else
     match FieldTok.parse ftok, ns.toNat?, PivArg.parse ps, parseIntList? as with
     | some ft, some n, some piv, some al =>
       let field := ft.base
